@@ -46,7 +46,7 @@ def cases(ctx):
                    'strict': strict, 'presorted': False, 'perm': None, 'tuples': (False, False)}
     rng = ctx.rng('random')
     for i in range(ctx.pick(40000, 600000)):
-        nf = rng.randint(1, 3)
+        nf = rng.randint(1, 3) if rng.random() < 0.85 else rng.randint(4, 5)
         pool = rng.sample(CELLS, 4)
         if nf > 1 and rng.random() < 0.5:
             rowpool = [[rng.choice(pool) for _ in range(nf)] for _ in range(3)]
@@ -69,13 +69,29 @@ def cases(ctx):
             for t, other in ((a, b), (b, a)):
                 for _ in range(rng.choice([0, 1, 1, 2])):
                     t.insert(rng.randint(1, len(t)), list(other[0]))
+        widths_differ = False
+        if nf >= 2 and rng.random() < 0.1:
+            # two rectangular tables of different widths: rows are compared as they are (a row of b never equals a longer or a
+            # shorter row of a, whatever a trailing None might suggest)
+            widths_differ = True
+            perm = None
+            cut_ = rng.randint(1, nf - 1)
+            if rng.random() < 0.5:
+                b = [r[:cut_] for r in b]
+            else:
+                a = [r[:cut_] for r in a]
+            for t_ in (a, b):
+                for r_ in t_[1:]:
+                    if rng.random() < 0.4 and len(r_) > 1:
+                        r_[-1] = None
         presorted = rng.random() < 0.3
         # the inputs may themselves be petl views of any kind (a descending or keyed sort, a pass-through, ...)
         wrap = (None, None) if (presorted or rng.random() < 0.75) else (rng.choice(WRAPS), rng.choice(WRAPS))
         yield {'a': a, 'b': b, 'strict': rng.random() < 0.4, 'presorted': presorted, 'perm': perm,
                'tuples': (rng.random() < 0.5, rng.random() < 0.5), 'wrap': wrap,
                'buffersize': None if (presorted or rng.random() < 0.88) else rng.choice([1, 1, 2, 3]),
-               'method': rng.random() < 0.2}       # etl.wrap(a).complement(b) etc.: the fluent form is the same operator
+               'method': rng.random() < 0.2,       # etl.wrap(a).complement(b) etc.: the fluent form is the same operator
+               'widths_differ': widths_differ}
 
 
 def _cnt(rows):
@@ -238,7 +254,9 @@ def judge(case, ctx):
             out.append({'kind': 'complement+intersection!=a', 'complement': comp, 'intersection': inter})
     # record variants: b's fields permuted, aligned by name
     perm = case['perm']
-    if not case['presorted']:
+    if case.get('widths_differ'):
+        ctx.seen('tables-of-different-widths')
+    if not case['presorted'] and not case.get('widths_differ'):
         a = _container(a0, case['tuples'][0], wa)
         bp = b0
         if perm is not None:
